@@ -262,7 +262,7 @@ pub fn run(sut: &dyn Sut, tier: Tier) -> ! {
     let mut stats = Stats::new();
     run.canaries(&mut |v| eval_replay(sut, v));
     let rounds = tier.pick(1, 8);
-    let n = tier.pick(240, 1600);
+    let n = tier.pick(800, 1600);
     // VERIF_C10_ATTRS=1 (developer aid) searches the excluded class of known finding K4
     let p = C10 { attrs: std::env::var("VERIF_C10_ATTRS").is_ok() };
     for r in 0..rounds {
